@@ -169,6 +169,12 @@ def whileFuel {σ} : Nat → (σ → Bool) → (σ → Option σ) → σ → Opt
   | 0, c, _, s => if c s then none else some s
   | n + 1, c, body, s => if c s then (body s).bind (whileFuel n c body) else some s
 
+/-- `while c { body }` whose body may `break` (second component of its answer) -/
+def loopFuel {σ} : Nat → (σ → Bool) → (σ → Option (σ × Bool)) → σ → Option σ
+  | 0, c, _, s => if c s then none else some s
+  | n + 1, c, body, s =>
+      if c s then (body s).bind (fun r => if r.2 then some r.1 else loopFuel n c body r.1) else some s
+
 /-- `for x in xs { body }` -/
 def forEach {σ α} (xs : List α) (init : σ) (f : σ → α → Option σ) : Option σ := xs.foldlM f init
 
